@@ -1,4 +1,112 @@
 /-
-  (kept for import stability) Structural lemmas about the session model live in Lemmas/Framing.lean.
+  Structural lemmas about `abortPending` (BGPPeering.abort_pending_connect): it only changes the phase of the
+  connector it gives up and the `pending` reference.  (Other structural lemmas live in Lemmas/Framing.lean.)
 -/
 import Yabgp.Model.Session
+
+namespace Yabgp
+namespace Sess
+
+@[simp] theorem st_withPending (s : Sess) (v : Option Nat) : (s.withPending v).st = s.st := rfl
+@[simp] theorem tm_withPending (s : Sess) (v : Option Nat) : (s.withPending v).tm = s.tm := rfl
+@[simp] theorem now_withPending (s : Sess) (v : Option Nat) : (s.withPending v).now = s.now := rfl
+@[simp] theorem outs_withPending (s : Sess) (v : Option Nat) : (s.withPending v).outs = s.outs := rfl
+@[simp] theorem conns_withPending (s : Sess) (v : Option Nat) : (s.withPending v).conns = s.conns := rfl
+@[simp] theorem proto_withPending (s : Sess) (v : Option Nat) : (s.withPending v).proto = s.proto := rfl
+@[simp] theorem estab_withPending (s : Sess) (v : Option Nat) : (s.withPending v).estab = s.estab := rfl
+@[simp] theorem allow_withPending (s : Sess) (v : Option Nat) : (s.withPending v).allowAuto = s.allowAuto := rfl
+@[simp] theorem cfg_withPending (s : Sess) (v : Option Nat) : (s.withPending v).cfg = s.cfg := rfl
+@[simp] theorem holdTime_withPending (s : Sess) (v : Option Nat) : (s.withPending v).holdTime = s.holdTime := rfl
+@[simp] theorem localCaps_withPending (s : Sess) (v : Option Nat) : (s.withPending v).localCaps = s.localCaps := rfl
+@[simp] theorem remote_withPending (s : Sess) (v : Option Nat) : (s.withPending v).remote = s.remote := rfl
+@[simp] theorem bgpId_withPending (s : Sess) (v : Option Nat) : (s.withPending v).bgpId = s.bgpId := rfl
+@[simp] theorem retryCounter_withPending (s : Sess) (v : Option Nat) : (s.withPending v).retryCounter = s.retryCounter := rfl
+@[simp] theorem pending_withPending (s : Sess) (v : Option Nat) : (s.withPending v).pending = v := rfl
+@[simp] theorem conn_withPending (s : Sess) (v : Option Nat) (j : Nat) : (s.withPending v).conn j = s.conn j := rfl
+
+/-- everything but the connections and the `pending` reference -/
+theorem abortPending_scalars (s : Sess) :
+    s.abortPending.st = s.st ∧ s.abortPending.tm = s.tm ∧ s.abortPending.now = s.now ∧ s.abortPending.outs = s.outs ∧
+    s.abortPending.proto = s.proto ∧ s.abortPending.estab = s.estab ∧ s.abortPending.allowAuto = s.allowAuto ∧
+    s.abortPending.cfg = s.cfg ∧ s.abortPending.holdTime = s.holdTime ∧ s.abortPending.localCaps = s.localCaps ∧
+    s.abortPending.remote = s.remote ∧ s.abortPending.bgpId = s.bgpId ∧ s.abortPending.retryCounter = s.retryCounter ∧
+    s.abortPending.conns.length = s.conns.length ∧ s.abortPending.pending = none := by
+  unfold abortPending
+  split
+  · rename_i h; simp [h]
+  · split <;> simp [setPhase, setConn, withConns, withPending]
+
+@[simp] theorem st_abortPending (s : Sess) : s.abortPending.st = s.st := (abortPending_scalars s).1
+@[simp] theorem tm_abortPending (s : Sess) : s.abortPending.tm = s.tm := (abortPending_scalars s).2.1
+@[simp] theorem now_abortPending (s : Sess) : s.abortPending.now = s.now := (abortPending_scalars s).2.2.1
+@[simp] theorem outs_abortPending (s : Sess) : s.abortPending.outs = s.outs := (abortPending_scalars s).2.2.2.1
+@[simp] theorem proto_abortPending (s : Sess) : s.abortPending.proto = s.proto := (abortPending_scalars s).2.2.2.2.1
+@[simp] theorem estab_abortPending (s : Sess) : s.abortPending.estab = s.estab := (abortPending_scalars s).2.2.2.2.2.1
+@[simp] theorem allow_abortPending (s : Sess) : s.abortPending.allowAuto = s.allowAuto := (abortPending_scalars s).2.2.2.2.2.2.1
+@[simp] theorem cfg_abortPending (s : Sess) : s.abortPending.cfg = s.cfg := (abortPending_scalars s).2.2.2.2.2.2.2.1
+@[simp] theorem holdTime_abortPending (s : Sess) : s.abortPending.holdTime = s.holdTime := (abortPending_scalars s).2.2.2.2.2.2.2.2.1
+@[simp] theorem localCaps_abortPending (s : Sess) : s.abortPending.localCaps = s.localCaps := (abortPending_scalars s).2.2.2.2.2.2.2.2.2.1
+@[simp] theorem remote_abortPending (s : Sess) : s.abortPending.remote = s.remote := (abortPending_scalars s).2.2.2.2.2.2.2.2.2.2.1
+@[simp] theorem bgpId_abortPending (s : Sess) : s.abortPending.bgpId = s.bgpId := (abortPending_scalars s).2.2.2.2.2.2.2.2.2.2.2.1
+@[simp] theorem retryCounter_abortPending (s : Sess) : s.abortPending.retryCounter = s.retryCounter :=
+  (abortPending_scalars s).2.2.2.2.2.2.2.2.2.2.2.2.1
+@[simp] theorem len_abortPending (s : Sess) : s.abortPending.conns.length = s.conns.length :=
+  (abortPending_scalars s).2.2.2.2.2.2.2.2.2.2.2.2.2.1
+@[simp] theorem pending_abortPending (s : Sess) : s.abortPending.pending = none :=
+  (abortPending_scalars s).2.2.2.2.2.2.2.2.2.2.2.2.2.2
+
+/-- a connection that is not an attempt in flight is left alone -/
+theorem conn_abortPending_of_not_connecting (s : Sess) (j : Nat) (h : (s.conn j).phase ≠ .connecting) :
+    s.abortPending.conn j = s.conn j := by
+  unfold abortPending
+  split
+  · rfl
+  · rename_i k _
+    split
+    · rename_i hk
+      have hne : k ≠ j := by intro e; subst e; exact h hk
+      simp only [setPhase, setConn, withConns, withPending, Sess.conn, List.getD_eq_getElem?_getD, List.getElem?_set]
+      rw [if_neg hne]
+    · rfl
+
+/-- the phase of every connection after the abort: the given-up attempt is closed, nothing else changes -/
+theorem phase_abortPending (s : Sess) (j : Nat) :
+    (s.abortPending.conn j).phase = (s.conn j).phase ∨
+    ((s.abortPending.conn j).phase = .closed ∧ (s.conn j).phase = .connecting ∧ s.pending = some j) := by
+  unfold abortPending
+  split
+  · exact Or.inl rfl
+  · rename_i k hk
+    split
+    · rename_i hph
+      by_cases hkj : k = j
+      · subst hkj
+        by_cases hl : k < s.conns.length
+        · right
+          refine ⟨?_, hph, hk⟩
+          simp [setPhase, setConn, withConns, withPending, Sess.conn, List.getD_eq_getElem?_getD, List.getElem?_set, hl]
+        · left
+          simp [setPhase, setConn, withConns, withPending, Sess.conn, List.getD_eq_getElem?_getD, List.getElem?_set, hl]
+      · left
+        simp only [setPhase, setConn, withConns, withPending, Sess.conn, List.getD_eq_getElem?_getD, List.getElem?_set]
+        rw [if_neg hkj]
+    · exact Or.inl rfl
+
+theorem disconnected_abortPending (s : Sess) (j : Nat) :
+    (s.abortPending.conn j).disconnected = (s.conn j).disconnected := by
+  unfold abortPending
+  split
+  · rfl
+  · rename_i k hk
+    split
+    · by_cases hkj : k = j
+      · subst hkj
+        by_cases hl : k < s.conns.length
+        · simp [setPhase, setConn, withConns, withPending, Sess.conn, List.getD_eq_getElem?_getD, List.getElem?_set, hl]
+        · simp [setPhase, setConn, withConns, withPending, Sess.conn, List.getD_eq_getElem?_getD, List.getElem?_set, hl]
+      · simp only [setPhase, setConn, withConns, withPending, Sess.conn, List.getD_eq_getElem?_getD, List.getElem?_set]
+        rw [if_neg hkj]
+    · rfl
+
+end Sess
+end Yabgp
